@@ -1,3 +1,208 @@
 import Litestream.Model.LockProtocols
-namespace Litestream.Locks
-end Litestream.Locks
+/-! Invariant of the double-checked registration protocol (C12 `register_once`). -/
+namespace Litestream.Locks.Register
+
+/-- Invariant (with the second check present). -/
+structure Inv (k : Nat) (s : St) : Prop where
+  holder : ∀ i, (s.pc i = .s1 ∨ s.pc i = .s4) ↔ s.mu = some i
+  atMost : s.dbs.length ≤ 1
+  reg    : ∀ i, i ∈ s.dbs ↔ s.pc i = .dReg
+  seen   : ∀ i, (s.pc i = .dEarly ∨ s.pc i = .s5 ∨ s.pc i = .dDup) → s.dbs ≠ []
+  bound  : ∀ i, k ≤ i → s.pc i = .s0
+
+theorem inv_init (k : Nat) : Inv k init := by
+  refine ⟨?_, ?_, ?_, ?_, ?_⟩ <;> simp [init]
+
+theorem upd_same (f : Nat → PC) (i : Nat) (v : PC) : upd f i v i = v := by simp [upd]
+theorem upd_other (f : Nat → PC) {i j : Nat} (v : PC) (h : j ≠ i) : upd f i v j = f j := by simp [upd, h]
+
+theorem inv_step {k : Nat} {s s' : St} (hi : Inv k s) (hs : Step true k s s') : Inv k s' := by
+  obtain ⟨hH, hA, hR, hS, hB⟩ := hi
+  cases hs with
+  | @lock1 i hik hpc hmu =>
+    refine ⟨?_, hA, ?_, ?_, ?_⟩
+    · intro j
+      by_cases hj : j = i
+      · subst hj; simp [upd_same]
+      · simp only [upd_other _ _ hj]
+        have := hH j
+        rw [hmu] at this
+        constructor
+        · intro h; exact absurd (this.mp h) (by simp)
+        · intro h; simp at h; exact absurd h.symm hj
+    · intro j
+      by_cases hj : j = i
+      · subst hj; simp only [upd_same]; rw [hR j, hpc]; simp
+      · simp only [upd_other _ _ hj]; exact hR j
+    · intro j
+      by_cases hj : j = i
+      · subst hj; simp [upd_same]
+      · simp only [upd_other _ _ hj]; exact hS j
+    · intro j hj
+      have : j ≠ i := by omega
+      simp only [upd_other _ _ this]; exact hB j hj
+  | @found1 i hik hpc hne =>
+    have hmu : s.mu = some i := (hH i).mp (Or.inl hpc)
+    refine ⟨?_, hA, ?_, ?_, ?_⟩
+    · intro j
+      by_cases hj : j = i
+      · subst hj; simp [upd_same]
+      · simp only [upd_other _ _ hj]
+        constructor
+        · intro h; have := (hH j).mp h; rw [hmu] at this; simp at this; exact absurd this.symm hj
+        · intro h; simp at h
+    · intro j
+      by_cases hj : j = i
+      · subst hj; simp only [upd_same]; rw [hR j, hpc]; simp
+      · simp only [upd_other _ _ hj]; exact hR j
+    · intro j
+      by_cases hj : j = i
+      · subst hj; intro _; exact hne
+      · simp only [upd_other _ _ hj]; exact hS j
+    · intro j hj
+      have : j ≠ i := by omega
+      simp only [upd_other _ _ this]; exact hB j hj
+  | @none1 i hik hpc hnil =>
+    have hmu : s.mu = some i := (hH i).mp (Or.inl hpc)
+    refine ⟨?_, hA, ?_, ?_, ?_⟩
+    · intro j
+      by_cases hj : j = i
+      · subst hj; simp [upd_same]
+      · simp only [upd_other _ _ hj]
+        constructor
+        · intro h; have := (hH j).mp h; rw [hmu] at this; simp at this; exact absurd this.symm hj
+        · intro h; simp at h
+    · intro j
+      by_cases hj : j = i
+      · subst hj; simp only [upd_same]; rw [hR j, hpc]; simp
+      · simp only [upd_other _ _ hj]; exact hR j
+    · intro j
+      by_cases hj : j = i
+      · subst hj; simp [upd_same]
+      · simp only [upd_other _ _ hj]; exact hS j
+    · intro j hj
+      have : j ≠ i := by omega
+      simp only [upd_other _ _ this]; exact hB j hj
+  | @open_ i hik hpc =>
+    refine ⟨?_, hA, ?_, ?_, ?_⟩
+    · intro j
+      by_cases hj : j = i
+      · subst hj
+        simp only [upd_same]
+        have := hH j
+        rw [hpc] at this
+        simp at this
+        simp [this]
+      · simp only [upd_other _ _ hj]; exact hH j
+    · intro j
+      by_cases hj : j = i
+      · subst hj; simp only [upd_same]; rw [hR j, hpc]; simp
+      · simp only [upd_other _ _ hj]; exact hR j
+    · intro j
+      by_cases hj : j = i
+      · subst hj; simp [upd_same]
+      · simp only [upd_other _ _ hj]; exact hS j
+    · intro j hj
+      have : j ≠ i := by omega
+      simp only [upd_other _ _ this]; exact hB j hj
+  | @lock2 i hik hpc hmu =>
+    refine ⟨?_, hA, ?_, ?_, ?_⟩
+    · intro j
+      by_cases hj : j = i
+      · subst hj; simp [upd_same]
+      · simp only [upd_other _ _ hj]
+        have := hH j
+        rw [hmu] at this
+        constructor
+        · intro h; exact absurd (this.mp h) (by simp)
+        · intro h; simp at h; exact absurd h.symm hj
+    · intro j
+      by_cases hj : j = i
+      · subst hj; simp only [upd_same]; rw [hR j, hpc]; simp
+      · simp only [upd_other _ _ hj]; exact hR j
+    · intro j
+      by_cases hj : j = i
+      · subst hj; simp [upd_same]
+      · simp only [upd_other _ _ hj]; exact hS j
+    · intro j hj
+      have : j ≠ i := by omega
+      simp only [upd_other _ _ this]; exact hB j hj
+  | @found2 i hik hpc _ hne =>
+    have hmu : s.mu = some i := (hH i).mp (Or.inr hpc)
+    refine ⟨?_, hA, ?_, ?_, ?_⟩
+    · intro j
+      by_cases hj : j = i
+      · subst hj; simp [upd_same]
+      · simp only [upd_other _ _ hj]
+        constructor
+        · intro h; have := (hH j).mp h; rw [hmu] at this; simp at this; exact absurd this.symm hj
+        · intro h; simp at h
+    · intro j
+      by_cases hj : j = i
+      · subst hj; simp only [upd_same]; rw [hR j, hpc]; simp
+      · simp only [upd_other _ _ hj]; exact hR j
+    · intro j
+      by_cases hj : j = i
+      · subst hj; intro _; exact hne
+      · simp only [upd_other _ _ hj]; exact hS j
+    · intro j hj
+      have : j ≠ i := by omega
+      simp only [upd_other _ _ this]; exact hB j hj
+  | @append i hik hpc hc =>
+    have hnil : s.dbs = [] := by
+      rcases hc with h | h
+      · cases h
+      · exact h
+    have hmu : s.mu = some i := (hH i).mp (Or.inr hpc)
+    refine ⟨?_, ?_, ?_, ?_, ?_⟩
+    · intro j
+      by_cases hj : j = i
+      · subst hj; simp [upd_same]
+      · simp only [upd_other _ _ hj]
+        constructor
+        · intro h; have := (hH j).mp h; rw [hmu] at this; simp at this; exact absurd this.symm hj
+        · intro h; simp at h
+    · simp [hnil]
+    · intro j
+      by_cases hj : j = i
+      · subst hj; simp [upd_same]
+      · simp only [upd_other _ _ hj, hnil]
+        have := hR j
+        rw [hnil] at this
+        simp at this
+        simp [hj, this]
+    · intro j _
+      simp [hnil]
+    · intro j hj
+      have : j ≠ i := by omega
+      simp only [upd_other _ _ this]; exact hB j hj
+  | @close i hik hpc =>
+    have hne : s.dbs ≠ [] := hS i (Or.inr (Or.inl hpc))
+    refine ⟨?_, hA, ?_, ?_, ?_⟩
+    · intro j
+      by_cases hj : j = i
+      · subst hj
+        simp only [upd_same]
+        have := hH j
+        rw [hpc] at this
+        simp at this
+        simp [this]
+      · simp only [upd_other _ _ hj]; exact hH j
+    · intro j
+      by_cases hj : j = i
+      · subst hj; simp only [upd_same]; rw [hR j, hpc]; simp
+      · simp only [upd_other _ _ hj]; exact hR j
+    · intro j
+      by_cases hj : j = i
+      · subst hj; intro _; exact hne
+      · simp only [upd_other _ _ hj]; exact hS j
+    · intro j hj
+      have : j ≠ i := by omega
+      simp only [upd_other _ _ this]; exact hB j hj
+
+theorem inv_reach {k : Nat} {s : St} (hr : Reach true k s) : Inv k s := by
+  induction hr with
+  | init => exact inv_init k
+  | step _ hs ih => exact inv_step ih hs
+
+end Litestream.Locks.Register
